@@ -63,7 +63,8 @@ type scenario struct {
 }
 
 type driver struct {
-	avoidSub string // filterThenBind prefers an offered node outside this node subnet (rollout spreads a generation)
+	outageDone bool // bindOutage ran in this trace (it costs the real retry loop's 3 s)
+	avoidSub   string // filterThenBind prefers an offered node outside this node subnet (rollout spreads a generation)
 	rng      *rand.Rand
 	w        *env.World
 	sc       scenario
@@ -316,6 +317,40 @@ func (d *driver) startSyncAll() {
 	d.emitOp(oi, M{"ev": "StartSyncAll", "op": op.ID})
 }
 
+// bindOutage: the API server refuses pods/binding for the whole retry window of one Bind call (every try of that call fails;
+// the pod stays as it is), and the scheduler retries the bind at once on the same node. Whatever the failed call left
+// behind -- the allocation, and any release event it queued -- meets the retried, successful bind: the events are handled
+// by the random scheduling that follows.
+func (d *driver) bindOutage(name, node string) {
+	d.outageDone = true
+	d.startBind(name, node)
+	b := d.lastOp()
+	if b == nil || b.typ != "bind" {
+		return
+	}
+	for guard := 0; guard < 60 && !b.op.Done && !b.op.Dead && !d.hung && d.w.Alive; guard++ {
+		ok := false
+		for _, r := range d.runnable() {
+			ok = ok || r == b
+		}
+		if !ok {
+			return
+		}
+		f := 0
+		if b.op.Pending != nil && b.op.Pending.Name == "binding" {
+			f = 1
+		}
+		d.step(b, f, 0)
+	}
+	if !b.op.Done || d.hung || !d.w.Alive || d.liveCount() >= d.sc.MaxOps {
+		return
+	}
+	if v, ok := d.w.TruthPods()[name]; ok && v.Node == "" && v.Phase == "Pending" && d.rng.Intn(4) != 0 {
+		d.startBind(name, node)
+		d.runAlone(d.lastOp())
+	}
+}
+
 // staleSync is the directed form of what the periodic pod-ip sync can meet: it lists while the pod runs, then the pod is deleted,
 // its events are handled and its IP released or reserved (and, sometimes, a successor is created and scheduled) before the
 // sync reaches the pod's entry of its snapshot. The sync operation is left to the random scheduler afterwards.
@@ -356,7 +391,7 @@ func (d *driver) staleSync(name string) {
 		}
 		break
 	}
-	if d.rng.Intn(2) == 0 && d.sc.Feat["cycle"] && d.inc[name] < d.sc.MaxInc && d.liveCount() < d.sc.MaxOps {
+	if d.rng.Intn(4) != 0 && d.inc[name] < d.sc.MaxInc && d.liveCount() < d.sc.MaxOps {
 		for _, sp := range d.sc.Specs {
 			if sp.Name == name {
 				if pv, err := d.w.CreatePod(sp); err == nil {
@@ -364,6 +399,14 @@ func (d *driver) staleSync(name string) {
 					d.emit(M{"ev": "CreatePod", "pod": name, "uid": pv.UID, "ranges": pv.Ranges})
 					d.filterThenBind(name)
 				}
+			}
+		}
+		// half of the time the sync reaches the stale entry right now, with the successor bound (possibly with the same IP)
+		if d.rng.Intn(4) != 0 && !sa.op.Done && !sa.op.Dead {
+			if d.runAlone(sa) && d.sc.Feat["resync"] && !d.liveOf("resync", "") && d.liveCount() < d.sc.MaxOps {
+				// ... and a resync pass judges what the sync left in the records while the successor lives
+				d.startResync()
+				d.runAlone(d.lastOp())
 			}
 		}
 	}
@@ -1046,6 +1089,9 @@ func (d *driver) startAction() bool {
 					add(4, func() { d.preemptRaceFilter(name) })
 				}
 			}
+			if nodes, ok := d.filtered[name]; ok && len(nodes) > 0 && d.sc.Feat["outage"] && !d.outageDone {
+				add(10, func() { d.bindOutage(name, nodes[d.rng.Intn(len(nodes))]) })
+			}
 			if nodes, ok := d.filtered[name]; ok && len(nodes) > 0 {
 				add(8, func() { d.startBind(name, nodes[d.rng.Intn(len(nodes))]) })
 				add(1, func() { d.startFilter(name) })
@@ -1073,7 +1119,7 @@ func (d *driver) startAction() bool {
 		for _, sp := range d.sc.Specs {
 			name := sp.Name
 			if v, ok := truth[name]; ok && v.Phase == "Running" && v.Node != "" {
-				add(4, func() { d.staleSync(name) })
+				add(10, func() { d.staleSync(name) })
 			}
 		}
 	}
@@ -1270,6 +1316,7 @@ func (d *driver) beginTrace(id int, extra M) {
 	d.ops = map[int]*opInfo{}
 	d.filtered = map[string][]string{}
 	d.inc = map[string]int{}
+	d.outageDone = false
 	d.budget.faults, d.budget.crashes, d.budget.admin, d.budget.reloads = sc.Faults, sc.Crashes, sc.Admin, 2
 	d.hung = false
 	for app, r := range sc.Sts {
